@@ -17,6 +17,7 @@ import (
 
 	"github.com/miekg/dns"
 	"github.com/semihalev/sdns/config"
+	"github.com/semihalev/sdns/internal/mock"
 	"github.com/semihalev/sdns/internal/verif/l3"
 	"github.com/semihalev/sdns/internal/verif/vlib"
 	"github.com/semihalev/sdns/middleware"
@@ -502,4 +503,156 @@ func execL3ID(a []string) vlib.Res {
 		rec = strings.Join(qs, ",")
 	}
 	return vlib.Res{Impl: fmt.Sprintf("rcode=%d recorded=%s", rc(r), rec), Oracle: or, Tags: "nt"}
+}
+
+// queryWithDeadline is l3.Pipe.Exchange with the CLIENT's own deadline.
+func queryWithDeadline(p *l3.Pipe, name string, qtype uint16, client string, d time.Duration) *dns.Msg {
+	req := new(dns.Msg)
+	req.SetQuestion(dns.Fqdn(name), qtype)
+	req.RecursionDesired = true
+	req.SetEdns0(1232, false)
+	w := mock.NewWriter("udp", client)
+	ch := p.P.NewChain()
+	defer p.P.PutChain(ch)
+	ch.Reset(w, req)
+	ctx, cancel := context.WithTimeout(context.Background(), d)
+	defer cancel()
+	ch.Next(ctx)
+	if !w.Written() {
+		return nil
+	}
+	return w.Msg()
+}
+
+// fail l3deadline <impatient clients> <server delay ms> <client deadline ms> <servers>
+// Clients that give up early on a slow but healthy zone are failures local to
+// those requests: their deadlines cutting upstream attempts short must leave
+// nothing behind (no failure state, no opened circuit breaker) that makes a
+// later, patient client fail without the zone's servers being asked.
+func execL3Deadline(a []string) vlib.Res {
+	n, delay, dl, nsrv := vlib.Atoi(a[0]), time.Duration(vlib.Atoi(a[1]))*time.Millisecond, time.Duration(vlib.Atoi(a[2]))*time.Millisecond, vlib.Atoi(a[3])
+	w := l3.NewWorld(false)
+	defer w.Close()
+	w.AddZone("test.", l3.ZoneOpts{})
+	z := w.AddZone("slow.test.", l3.ZoneOpts{NSTTL: 3600})
+	z.Add("*.slow.test. 300 IN A 192.0.2.240")
+	servers := []*l3.Server{z.Servers[0]}
+	for len(servers) < nsrv {
+		servers = append(servers, w.AddServer("slow.test."))
+	}
+	for _, s := range servers {
+		s.SetBehaviour(l3.Behaviour{Delay: func(q dns.Question, _ bool) time.Duration {
+			if strings.HasPrefix(q.Name, "imp") {
+				return delay
+			}
+			return 0
+		}})
+	}
+	p := l3.NewPipe(w, l3.PipeOpts{Tweak: func(cfg *config.Config) {
+		cfg.Timeout.Duration = 2 * time.Second
+		cfg.QueryTimeout.Duration = 10 * time.Second
+	}})
+	defer p.Close()
+	p.Query("warm.slow.test.", dns.TypeA, l3.Flags{})
+	gaveUp := 0
+	for i := 0; i < n; i++ {
+		r := queryWithDeadline(p, fmt.Sprintf("imp%d.slow.test.", i), dns.TypeA, fmt.Sprintf("10.9.3.%d:4000", i+1), dl)
+		if r == nil || r.Rcode != dns.RcodeSuccess {
+			gaveUp++
+		}
+		time.Sleep(delay + 60*time.Millisecond) // let the abandoned attempts drain
+	}
+	var before int64
+	for _, s := range servers {
+		before += s.UDPQueries.Load() + s.TCPQueries.Load()
+	}
+	patient := p.Query("patient.slow.test.", dns.TypeA, l3.Flags{Client: "10.9.4.1:4000"})
+	var after int64
+	for _, s := range servers {
+		after += s.UDPQueries.Load() + s.TCPQueries.Load()
+	}
+	var retained []string
+	for _, e := range cache.VerifC13Entries(cache.VerifC13FailureOf(p.Cache)) {
+		if e.Kind == cache.FailureKindQuestion {
+			retained = append(retained, e.Question.Question.Name)
+		} else {
+			retained = append(retained, "zone:"+e.Zone.Zone)
+		}
+	}
+	or := "-"
+	impl := "patient=answer retained=-"
+	if gaveUp == n { // every impatient client really gave up (otherwise nothing to judge)
+		or = "ok"
+		ok := patient != nil && patient.Rcode == dns.RcodeSuccess && len(patient.Answer) > 0
+		switch {
+		case len(retained) > 0:
+			or = "FAIL sig=l3deadline/client-deadlines-became-shared-failure-state retained=" + strings.Join(retained, ",")
+		case !ok && after == before:
+			or = "FAIL sig=l3deadline/patient-client-failed-without-the-zone-being-asked"
+		case !ok:
+			or = fmt.Sprintf("FAIL sig=l3deadline/patient-client-failed rcode=%d", rc(patient))
+		}
+		if !ok || len(retained) > 0 {
+			impl = fmt.Sprintf("patient=%d retained=%s", rc(patient), strings.Join(retained, ","))
+		}
+	}
+	return vlib.Res{Impl: impl, Oracle: or, Tags: "nt"}
+}
+
+// fail l3trunc <dead hosts> <outbound budget>
+// A glueless delegation whose first name-server hosts point at dead addresses
+// and whose last host is healthy. A first request tree runs out of its
+// outbound-query budget while it is still collecting name-server addresses;
+// a second, independent tree follows. The zone has a healthy server: it must
+// not be published as failed, and the second client must get the answer (or
+// at least its own budget's verdict — never a zone-wide failure).
+func execL3Trunc(a []string) vlib.Res {
+	dead, budget := vlib.Atoi(a[0]), vlib.Atoi(a[1])
+	w := l3.NewWorld(false)
+	defer w.Close()
+	w.AddZone("test.", l3.ZoneOpts{})
+	farm := w.AddZone("nsfarm.test.", l3.ZoneOpts{NSTTL: 3600})
+	var hosts []string
+	for i := 0; i <= dead; i++ {
+		hosts = append(hosts, fmt.Sprintf("n%02d.nsfarm.test.", i))
+	}
+	many := w.AddZone("many.test.", l3.ZoneOpts{NSTTL: 3600, NSHosts: hosts, NoGlue: true})
+	many.Add("www.many.test. 300 IN A 192.0.2.250", "mail.many.test. 300 IN A 192.0.2.251")
+	var deadSrv []*l3.Server
+	for i := 0; i < dead; i++ {
+		s := w.NewServer(fmt.Sprintf("dead%d", i))
+		s.SetBehaviour(l3.Behaviour{Drop: func(dns.Question, bool) bool { return true }})
+		deadSrv = append(deadSrv, s)
+		farm.Add(fmt.Sprintf("%s 3600 IN A %s", hosts[i], s.IP.String()))
+	}
+	farm.Add(fmt.Sprintf("%s 3600 IN A %s", hosts[dead], many.Servers[0].IP.String()))
+	p := l3.NewPipe(w, l3.PipeOpts{Tweak: func(cfg *config.Config) {
+		cfg.Timeout.Duration = 150 * time.Millisecond
+		cfg.QueryTimeout.Duration = 10 * time.Second
+		cfg.RecursionFirewall.Mode = config.RecursionFirewallModeEnforce
+		cfg.RecursionFirewall.MaxOutboundQueries = uint32(budget)
+	}})
+	defer p.Close()
+	zones := func() []string {
+		var out []string
+		for _, e := range cache.VerifC13Entries(cache.VerifC13FailureOf(p.Cache)) {
+			if e.Kind == cache.FailureKindZone {
+				out = append(out, e.Zone.Zone)
+			}
+		}
+		return out
+	}
+	first := p.Query("www.many.test.", dns.TypeA, l3.Flags{Client: "10.9.5.1:4000"})
+	z1 := zones()
+	second := p.Query("mail.many.test.", dns.TypeA, l3.Flags{Client: "10.9.5.2:4000"})
+	z2 := zones()
+	healthyAsked := many.Servers[0].UDPQueries.Load() + many.Servers[0].TCPQueries.Load()
+	impl := fmt.Sprintf("first=%d/%v zones1=%v second=%d/%v zones2=%v healthy-asked=%d", rc(first), edeOf(first), z1, rc(second), edeOf(second), z2, healthyAsked)
+	or := "ok"
+	for _, z := range append(z1, z2...) {
+		if z == "many.test." && healthyAsked == 0 {
+			or = "FAIL sig=l3trunc/zone-failure-for-a-zone-whose-healthy-server-was-never-asked"
+		}
+	}
+	return vlib.Res{Impl: impl, Oracle: or, Tags: "nt"}
 }
